@@ -201,7 +201,7 @@ PROPS = {
     },
     "C11": {
         "proofs": ["ZlProofs.Props.C11", "ZlProofs.Props.C05"],  # locality is a statement about lints that are functions of (object, configuration): C05's footprint facts
-        "corr": ["config", "filter", "rsa"],  # filter: a filtered registry is a new registry holding a copy of the configuration (filter_inherits / no_leak); rsa: the one real numeric option (Rounds) under rising and falling sequences on one modulus, against the Fermat model
+        "corr": ["config", "filter", "regseq", "rsa"],  # filter: a filtered registry is a new registry holding a copy of the configuration (filter_inherits / no_leak); rsa: the one real numeric option (Rounds) under rising and falling sequences on one modulus, against the Fermat model
         "search": [],
         "trusted_base": TB_COMMON,
         "assumptions": ["A-TOML: go-toml's parser and reflection-based Unmarshal as abstracted by the typed-field view (key search name/lower/upper/lower-first, exact kind match, unknown keys ignored)"],
@@ -225,7 +225,7 @@ PROPS = {
     },
     "C08": {
         "proofs": ["ZlProofs.Props.C08"],
-        "corr": ["filter"],
+        "corr": ["filter", "regseq"],
         "search": [],
         "trusted_base": TB_COMMON,
         "assumptions": ["the regexp is modelled as the predicate it denotes (the harness sends the set of names it matches)",
@@ -234,14 +234,14 @@ PROPS = {
     "C12": {
         "obligations": [ob_c12_excluded],
         "proofs": ["ZlProofs.Props.C12"],
-        "corr": ["filter"],
+        "corr": ["filter", "regseq"],
         "search": ["meta"],
         "trusted_base": TB_COMMON,
         "assumptions": [],
     },
     "C13": {
         "proofs": ["ZlProofs.Props.C13"],
-        "corr": ["codec", "filter"],
+        "corr": ["codec", "filter", "regseq"],
         "search": ["meta", "cli"],
         "trusted_base": TB_COMMON,
         "assumptions": ["CLI flag plumbing is covered by C15"],
@@ -299,7 +299,7 @@ PROPS = {
     },
     "C14": {
         "proofs": ["ZlProofs.Props.C14"],
-        "corr": ["codec", "jsonstr"],
+        "corr": ["codec", "jsonstr", "regseq"],
         "search": [],
         "trusted_base": TB_COMMON,
         "assumptions": ["A-JSON: encoding/json's string codec is as modelled in ZlModel/JsonString.lean (appendString, scanner + unquoteBytes; Go 1.23) — validated by the jsonstr correspondence on every short string over 26 boundary bytes, random strings and hand-made literals; object/array framing of encoding/json is not modelled"],
